@@ -98,6 +98,15 @@ def run(ctx):
     for mp, body in (('negative ', 'O- labeled a C labeled b single bond to a'), ('positive ', 'N+ labeled a'), ('neutral ', 'C labeled a'),
                      ('negative ', 'C? labeled a'), ('positive ', '$? labeled a')):
         jobs.append({'op': 'match', 'text': '%sfragment f{%s}' % (mp, body), 'smiles': charged, 'graphs': True, 'timeout': 30})
+    # an atom written with a bare suffix carries no per-atom constraint of its own: declared FIRST, the atoms after it must still be checked
+    chg2 = charged + ['[CH2][CH2+]', 'C[CH2+]', '[CH2]C', '[CH2][O-]', 'C1CC1[CH2+]', 'C1CC1[CH2-]', 'C[NH2+]C', '[CH2][NH3+]', 'CC[O-]', '[O-]C(C)C',
+                      'C=[OH+]', '[CH2-]C=C', '[CH]([CH2+])C']
+    for sfx in ('+', '-', '?', '*'):
+        for body in ('C%s labeled a C labeled b single bond to a', 'O%s labeled a C labeled b single bond to a {connected to =2 H}',
+                     'C%s labeled a C labeled b single bond to a {in ring of size 3}', 'C%s labeled a nonringatom C labeled b single bond to a',
+                     'N%s labeled a C. labeled b single bond to a', 'C%s labeled a ringatom C labeled b single bond to a C labeled c single bond to b',
+                     'C labeled b C%s labeled a single bond to b', 'O%s labeled a C labeled b single bond to a {connected to >1 C}'):
+            jobs.append({'op': 'match', 'text': 'fragment f{%s}' % (body % sfx), 'smiles': chg2, 'graphs': True, 'timeout': 30})
     # random larger fragments / molecules
     pool = [molgen.rnd_gas(rng) for _ in range(60)] + [molgen.rnd_surface(rng, 'Pt') for _ in range(30)]
     nrand = ctx.n(250, 6000)
